@@ -289,7 +289,18 @@ fn main() {
             run_replays(&main, &findings, &mut rep);
             rep.merge(run_prop(&main, cases_for(tier, 8000, 80000), seed, 0, &findings));
             enumerate_into(&mut rep, tier, "C05", Flavor::C05, &findings);
-            let rule = format!("{} || SYSTEMATIC PART: for fixed small programs (coverage.systematic_enumeration) every schedule with at most 1 (quick) / 2 (thorough) pre-emptions over every base order of the actors, same oracle.", main.rule);
+            {
+                // real threads: one case at a time (each case uses up to 8 threads of its own)
+                let stress = skv_verif::engine_sched::stress_prop("C05", if tier == "thorough" { 20000 } else { 4000 });
+                let jobs = std::env::var("VERIF_JOBS").ok();
+                std::env::set_var("VERIF_JOBS", "2");
+                rep.merge(run_prop(&stress, cases_for(tier, 8, 60), seed, 7, &findings));
+                match jobs {
+                    Some(j) => std::env::set_var("VERIF_JOBS", j),
+                    None => std::env::remove_var("VERIF_JOBS"),
+                }
+            }
+            let rule = format!("{} || SYSTEMATIC PART: for fixed small programs (coverage.systematic_enumeration) every schedule with at most 1 (quick) / 2 (thorough) pre-emptions over every base order of the actors, same oracle. || STRESS PART: uncontrolled real-thread runs (counter pairs; see DESIGN 4.C).", main.rule);
             finish(main.id, main.level, tier, seed, &rule, &main.assumptions, &rep, t0.elapsed().as_secs_f64(), &findings)
         }
         "C17" => {
